@@ -16,7 +16,7 @@ import random
 import catalogue
 import loadreplay
 import render
-from common import (BUILD, CACHE, NCPU, SEED, SPEC, MachineryError, Verdict,
+from common import (to_tlc, BUILD, CACHE, NCPU, SEED, SPEC, MachineryError, Verdict,
                     chunked, run_tlc)
 
 MODELS_JSON = os.path.join(BUILD, 'models.json')
@@ -35,7 +35,7 @@ C17_STRONG = {'plain', 'extra', 'dashed_sav', 'enum_str', 'collections',
 
 def write_models(dimplicit=None):
     os.makedirs(BUILD, exist_ok=True)
-    data = json.dumps(catalogue.build(dimplicit), sort_keys=True)
+    data = to_tlc(json.dumps(catalogue.build(dimplicit), sort_keys=True))
     tmp = MODELS_JSON + '.%d' % os.getpid()
     with open(tmp, 'w') as f:
         f.write(data)
